@@ -9,6 +9,7 @@
 (*                                                                         *)
 (*   Items    the select list: a sequence of kinds                          *)
 (*            "col" | "sync" | "async" | "spinasync" | "spin" | "once"       *)
+(*            | "oncenull" (a ONCE function whose result is NULL)           *)
 (*   call     <<row, item>>;  its value is Val(row)                          *)
 (*   st       call -> "none" | "spawned" | "running" | "done"                *)
 (*   wg       the query's wait group counter                                 *)
@@ -29,14 +30,20 @@ Slot == -2
 Unresolved == -3
 NoOnce == -1
 
-CONSTANTS NRows, Items, Dev_AddInGoroutine
+CONSTANTS NRows, Items, Dev_AddInGoroutine,
+          Nested,        \* the select list belongs to a nested query (derived table, CTE body, subquery): its wait group is
+                         \* chained to the outer query's by a goroutine that waits for it and then releases the outer one
+          Dev_NoChain    \* deviation: the outer query does not wait for the nested query's wait group
 
-VARIABLES pc, next, st, wg, cell, inv, once, sched
-avars == <<pc, next, st, wg, cell, inv, once, sched>>
+VARIABLES pc, next, st, wg, cell, inv, once, sched,
+          owg            \* the outer query's wait group (1 while the chain goroutine is waiting; unused when ~Nested)
+avars == <<pc, next, st, wg, cell, inv, once, sched, owg>>
 
 Rows  == 1..NRows
 Its   == DOMAIN Items
-Calls == {<<r, i>> : r \in Rows, i \in {j \in Its : Items[j] \in {"sync", "async", "spinasync", "spin", "once"}}}
+IsOnce(k) == k \in {"once", "oncenull"}
+NullVal == -4
+Calls == {<<r, i>> : r \in Rows, i \in {j \in Its : Items[j] \in {"sync", "async", "spinasync", "spin", "once", "oncenull"}}}
 Kind(c) == Items[c[2]]
 Val(r) == r * 10
 Bg(c)  == Kind(c) \in {"async", "spinasync", "spin"}          \* runs in a goroutine
@@ -44,56 +51,59 @@ Counted(c) == Kind(c) \in {"async", "spinasync"}              \* Exec waits for 
 
 AInit ==
     /\ pc = "rows" /\ next = 1 /\ wg = 0 /\ once = NoOnce /\ sched = <<>>
+    /\ owg = IF Nested /\ ~Dev_NoChain THEN 1 ELSE 0
     /\ st = [c \in Calls |-> "none"] /\ inv = [c \in Calls |-> 0]
     /\ cell = [r \in Rows |-> [i \in Its |-> Absent]]
 
-\* the first row's ONCE call is the one that runs
-OnceRuns(r, i) == Items[i] = "once" /\ once = NoOnce /\ \A j \in 1..(i - 1) : Items[j] # "once"
-
-\* the main goroutine evaluates every item of row `next`, left to right, in one step
+\* the main goroutine evaluates every item of row `next`, left to right, in one step; the first
+\* ONCE call of the query runs, later ones reuse what it returned - NULL included
+OnceVal(r) == IF \E i \in Its : Items[i] = "oncenull" THEN NullVal ELSE Val(r)
 MainRow ==
     /\ pc = "rows" /\ next <= NRows
     /\ LET r == next
-           onceNow == IF \E i \in Its : Items[i] = "once" THEN (IF once = NoOnce THEN Val(r) ELSE once) ELSE once
-       IN  /\ st' = [c \in Calls |-> IF c[1] = r THEN (IF Bg(c) THEN "spawned" ELSE IF Kind(c) = "once" /\ once # NoOnce THEN "none" ELSE "done") ELSE st[c]]
-           /\ inv' = [c \in Calls |-> IF c[1] = r /\ (Kind(c) = "sync" \/ (Kind(c) = "once" /\ once = NoOnce)) THEN inv[c] + 1 ELSE inv[c]]
+           onceNow == IF \E i \in Its : IsOnce(Items[i]) THEN (IF once = NoOnce THEN OnceVal(r) ELSE once) ELSE once
+       IN  /\ st' = [c \in Calls |-> IF c[1] = r THEN (IF Bg(c) THEN "spawned" ELSE IF IsOnce(Kind(c)) /\ once # NoOnce THEN "none" ELSE "done") ELSE st[c]]
+           /\ inv' = [c \in Calls |-> IF c[1] = r /\ (Kind(c) = "sync" \/ (IsOnce(Kind(c)) /\ once = NoOnce)) THEN inv[c] + 1 ELSE inv[c]]
            /\ wg' = IF Dev_AddInGoroutine THEN wg ELSE wg + Cardinality({c \in Calls : c[1] = r /\ Counted(c)})
            /\ once' = onceNow
            /\ cell' = [cell EXCEPT ![r] = [i \in Its |->
                           CASE Items[i] = "col"   -> Val(r)
                             [] Items[i] = "sync"  -> Val(r)
                             [] Items[i] = "async" -> Slot
-                            [] Items[i] = "once"  -> onceNow
+                            [] IsOnce(Items[i])   -> onceNow
                             [] OTHER -> Absent]]
            /\ sched' = Append(sched, [ev |-> "row", r |-> r])
     /\ next' = next + 1
-    /\ UNCHANGED pc
+    /\ UNCHANGED <<pc, owg>>
 
-RowsDone == pc = "rows" /\ next > NRows /\ pc' = "wait" /\ UNCHANGED <<next, st, wg, cell, inv, once, sched>>
+RowsDone == pc = "rows" /\ next > NRows /\ pc' = "wait" /\ UNCHANGED <<next, st, wg, cell, inv, once, sched, owg>>
+
+\* the chain goroutine: the nested query's wait group has drained, the outer one is released
+ChainDone == Nested /\ owg = 1 /\ pc = "wait" /\ wg = 0 /\ owg' = 0 /\ UNCHANGED <<pc, next, st, wg, cell, inv, once, sched>>
 
 FnStart(c) ==
     /\ st[c] = "spawned"
     /\ st' = [st EXCEPT ![c] = "running"] /\ inv' = [inv EXCEPT ![c] = inv[c] + 1]
     /\ wg' = IF Dev_AddInGoroutine /\ Counted(c) THEN wg + 1 ELSE wg
     /\ sched' = Append(sched, [ev |-> "start", r |-> c[1], i |-> c[2]])
-    /\ UNCHANGED <<pc, next, cell, once>>
+    /\ UNCHANGED <<pc, next, cell, once, owg>>
 
 FnFinish(c) ==
     /\ st[c] = "running"
     /\ st' = [st EXCEPT ![c] = "done"]
     /\ wg' = IF Counted(c) THEN wg - 1 ELSE wg
     /\ sched' = Append(sched, [ev |-> "finish", r |-> c[1], i |-> c[2]])
-    /\ UNCHANGED <<pc, next, cell, inv, once>>
+    /\ UNCHANGED <<pc, next, cell, inv, once, owg>>
 
 \* wg.Wait() returns, the post-processors put the values into the async columns, Exec returns
 Return ==
-    /\ pc = "wait" /\ wg = 0
+    /\ pc = "wait" /\ (IF Nested THEN owg = 0 ELSE wg = 0)
     /\ cell' = [r \in Rows |-> [i \in Its |->
                   IF cell[r][i] = Slot THEN (IF st[<<r, i>>] = "done" THEN Val(r) ELSE Unresolved) ELSE cell[r][i]]]
     /\ pc' = "done" /\ sched' = Append(sched, [ev |-> "return"])
-    /\ UNCHANGED <<next, st, wg, inv, once>>
+    /\ UNCHANGED <<next, st, wg, inv, once, owg>>
 
-ANext == MainRow \/ RowsDone \/ (\E c \in Calls : FnStart(c) \/ FnFinish(c)) \/ Return
+ANext == MainRow \/ RowsDone \/ ChainDone \/ (\E c \in Calls : FnStart(c) \/ FnFinish(c)) \/ Return
 ASpec == AInit /\ [][ANext]_avars /\ WF_avars(ANext)
 
 ---------------------------------------------------------------------------
@@ -109,9 +119,9 @@ ValuesInPlace ==
           [] OTHER -> TRUE
 \* ONCE: a single invocation per query, every row sees that value
 OnceLaw ==
-    Returned => \A i \in Its : Items[i] = "once" =>
-        /\ Cardinality({c \in Calls : c[2] = i /\ inv[c] = 1}) = (IF \A j \in 1..(i - 1) : Items[j] # "once" THEN 1 ELSE 0)
-        /\ \A r \in Rows : cell[r][i] = Val(1)
+    Returned => \A i \in Its : IsOnce(Items[i]) =>
+        /\ Cardinality({c \in Calls : c[2] = i /\ inv[c] = 1}) = (IF \A j \in 1..(i - 1) : ~IsOnce(Items[j]) THEN 1 ELSE 0)
+        /\ \A r \in Rows : cell[r][i] = OnceVal(1)
 \* nothing is invoked twice, ever
 AtMostOnce == \A c \in Calls : inv[c] <= 1
 Terminates == <>(pc = "done")
